@@ -9,6 +9,7 @@
 //	                        from the transferred file); on a mismatch hash1 is recalculated by getHash(<X>, true) exactly
 //	                        once before the transfer is declared corrupt, and <X> is the SOURCE; the copy between the two hash
 //	                        computations is unconditional (never skipped because a side file says the destination is equal)
+//	getCacheEntryPath       filepath.Join(remote storage path, key): the entry is a function of the whole key
 //	setUpLocalDestination   CleanDir(dest), then Ls(dest) and failure when something is left
 //	unpackPackage…          plain UnzipWithContext (no limits => archives inside the tree are not expanded)
 //	immutable Store         ZipWithContext -> TransferFiles -> Move(package) -> Move(hash side file); the final name is the
@@ -172,6 +173,7 @@ type facts struct {
 	RehashOnce                  bool `json:"rehash_once"`
 	DestHashFromTransferredFile bool `json:"dest_hash_from_transferred_file"`
 	TransferAlwaysCopies        bool `json:"transfer_always_copies"`
+	EntryIsWholeKey             bool `json:"entry_is_whole_key"`
 	SetupCleanThenCheck         bool `json:"setup_clean_then_check"`
 	UnzipPlain                  bool `json:"unzip_plain"`
 	ImmPartBaseOnly             bool `json:"imm_part_base_only"`
@@ -576,6 +578,28 @@ func newestFirstFacts(fs funcs, f *facts) {
 	}
 }
 
+// getCacheEntryPath: the entry directory is <remote storage path>/<key> — the WHOLE key, so distinct keys have distinct entries.
+func entryPathFacts(fd *ast.FuncDecl, f *facts) {
+	if len(fd.Body.List) != 1 {
+		die(fd.Pos(), "getCacheEntryPath: %d statements", len(fd.Body.List))
+	}
+	r, ok := fd.Body.List[0].(*ast.ReturnStmt)
+	if !ok || len(r.Results) != 1 {
+		die(fd.Pos(), "getCacheEntryPath: not a single return")
+	}
+	if len(fd.Type.Params.List) != 1 || len(fd.Type.Params.List[0].Names) != 1 || fd.Type.Params.List[0].Names[0].Name != "key" {
+		die(fd.Pos(), "getCacheEntryPath: parameter key expected")
+	}
+	switch src(r.Results[0]) {
+	case "filepath.Join(c.cfg.RemoteStoragePath, key)":
+		f.EntryIsWholeKey = true
+	case "filepath.Join(c.cfg.RemoteStoragePath, filepath.Base(key))":
+		f.EntryIsWholeKey = false // only the last element: keys with a common last element share an entry
+	default:
+		die(r.Pos(), "getCacheEntryPath: entry computed as %s", src(r.Results[0]))
+	}
+}
+
 func b(x bool) string {
 	if x {
 		return "true"
@@ -611,6 +635,7 @@ func main() {
 	f.MutFetchDeferAfterAcquire, f.MutFetchReturnsTransferErr = lockDiscipline(get(fs, "SharedMutableCacheRepository.Fetch"), "unpackPackageToLocalDestination")
 	f.MutStoreDeferAfterAcquire, f.MutStoreReturnsTransferErr = lockDiscipline(get(fs, "SharedMutableCacheRepository.Store"), "TransferFiles")
 	transferFacts(get(fs, "TransferFiles"), &f)
+	entryPathFacts(get(fs, "AbstractSharedCacheRepository.getCacheEntryPath"), &f)
 	setupFacts(get(fs, "AbstractSharedCacheRepository.setUpLocalDestination"), &f)
 	unpackFacts(get(fs, "AbstractSharedCacheRepository.unpackPackageToLocalDestination"), &f)
 	immutableStoreFacts(get(fs, "SharedImmutableCacheRepository.Store"), &f)
@@ -629,6 +654,7 @@ func main() {
 	fmt.Fprintf(&v, "  f_rehash_once := %s;\n", b(f.RehashOnce))
 	fmt.Fprintf(&v, "  f_dest_hash_from_transferred_file := %s;\n", b(f.DestHashFromTransferredFile))
 	fmt.Fprintf(&v, "  f_transfer_always_copies := %s;\n", b(f.TransferAlwaysCopies))
+	fmt.Fprintf(&v, "  f_entry_is_whole_key := %s;\n", b(f.EntryIsWholeKey))
 	fmt.Fprintf(&v, "  f_setup_clean_then_check := %s;\n", b(f.SetupCleanThenCheck))
 	fmt.Fprintf(&v, "  f_unzip_plain := %s;\n", b(f.UnzipPlain))
 	fmt.Fprintf(&v, "  f_imm_part_base_only := %s;\n", b(f.ImmPartBaseOnly))
